@@ -522,6 +522,11 @@ class HTMLBinaryInputStream(HTMLUnicodeInputStream):
         newEncoding = lookupEncoding(newEncoding)
         if newEncoding is None:
             return
+        if self.charEncoding[0].name in ("utf-16be", "utf-16le"):
+            # a declaration that could be read as UTF-16 and names another
+            # encoding is necessarily wrong: the document stays UTF-16
+            self.charEncoding = (self.charEncoding[0], "certain")
+            return
         if newEncoding.name in ("utf-16be", "utf-16le"):
             newEncoding = lookupEncoding("utf-8")
             assert newEncoding is not None
